@@ -596,7 +596,7 @@ pub fn run(ctx: Ctx) -> Report {
 pub fn meta() -> CheckMeta {
     CheckMeta {
         level: "exploration",
-        rule: "(1) session level, virtual time: a scripted peer sends PSH..PSH,FIN for 1-8 streams of a real client or server Session (chunks 0..65535 bytes interleaved across streams, some streams without FIN, 3 transport fragmentation classes, reader buffers 1..70000): each reader must see exactly its bytes (online tag check) and end of stream iff its FIN was sent and only after all bytes; afterwards the victim sends on every stream (the other direction must keep working) and the stream tables must hold exactly the streams whose FIN has not arrived. (2) end to end, real time, SOCKS5 and HTTP CONNECT: application half-close / close / abort (close with unread data, i.e. a reset) and target close / half-close / abort with 0..300000 bytes in flight in both directions; the opposite endpoint must receive every byte sent before the close and then observe end of stream within the bound, the other direction must still carry data, and after both ended the second endpoint must see end of stream too; 12 complete request cycles must not leave tasks alive in proportion to their number. distinct_nontrivial = distinct cases.".into(),
+        rule: "(1) session level, virtual time: a scripted peer sends PSH..PSH,FIN for 1-8 streams of a real client or server Session (chunks 0..65535 bytes interleaved across streams, some streams without FIN, 3 transport fragmentation classes, reader buffers 1..70000): each reader must see exactly its bytes (online tag check) and end of stream iff its FIN was sent and only after all bytes; afterwards the victim sends on every stream (the other direction must keep working) and the stream tables must hold exactly the streams whose FIN has not arrived. (2) end to end, real time, SOCKS5 and HTTP CONNECT: application half-close / close / abort (close with unread data, i.e. a reset) and target close / half-close / abort with 0..300000 bytes in flight in both directions; the opposite endpoint must receive every byte sent before the close and then observe end of stream within the bound, the other direction must still carry data, and after both ended the second endpoint must see end of stream too; 12 complete request cycles must not leave tasks alive in proportion to their number. distinct_nontrivial = distinct cases. 15% of the session-level cases are bursts of 30-700 tiny (1-3 byte) frames per stream that reach the victim in one or a few transport reads, with the FIN far behind the first frame, followed by silence.".into(),
         assumptions: vec!["'observes end of stream' at the e2e level is decided with a 4 s (quick) / 10 s (thorough) bound on loopback".into(), "target connections are matched to cases by the unique 127.66.a.b address that was dialled".into()],
         floors: vec![("receiving_half_cases", 500), ("fins_sent_by_scripted_peer", 500), ("e2e_close_cases", 40), ("task_release_cycles", 10)],
         exhaustive: false,
